@@ -57,11 +57,22 @@ fn joins_cleanly(a: &str, sep: &str, b: &str) -> bool {
 /// Join token texts with random separators that keep the token sequence.
 /// Returns the text and the byte offset of every token.
 pub fn join_tokens(texts: &[String], rng: &mut Rng, seps: &[&str]) -> (String, Vec<usize>) {
-    let mut s = String::new();
-    let mut starts = vec![];
-    if rng.chance(0.5) {
-        s.push_str(rng.pick_str(seps));
+    let head = if rng.chance(0.5) { rng.pick_str(seps) } else { "" };
+    let (mut s, starts) = join_tokens_core(texts, rng, seps, head);
+    match rng.below(5) {
+        0 => s.push_str(" "),
+        1 => s.push('\n'),
+        2 => s.push_str("// end, no newline"),
+        3 => s.push_str("\r\n"),
+        _ => {}
     }
+    (s, starts)
+}
+
+/// Like `join_tokens`, but nothing is appended after the last token.
+pub fn join_tokens_core(texts: &[String], rng: &mut Rng, seps: &[&str], head: &str) -> (String, Vec<usize>) {
+    let mut s = String::from(head);
+    let mut starts = vec![];
     for (i, t) in texts.iter().enumerate() {
         if i > 0 {
             let mut sep = *rng.pick(seps);
@@ -72,13 +83,6 @@ pub fn join_tokens(texts: &[String], rng: &mut Rng, seps: &[&str]) -> (String, V
         }
         starts.push(s.len());
         s.push_str(t);
-    }
-    match rng.below(5) {
-        0 => s.push_str(" "),
-        1 => s.push('\n'),
-        2 => s.push_str("// end, no newline"),
-        3 => s.push_str("\r\n"),
-        _ => {}
     }
     (s, starts)
 }
